@@ -13,7 +13,7 @@ theorem reduced_of_mem (p : Int) (hp : 0 < p) (l : List Int) (h : ∀ x ∈ l, 0
     rw [this]; exact h _ (List.getElem_mem hj)
   · rw [getD_of_length_le l j (by omega)]; exact ⟨le_refl _, hp⟩
 
-theorem length_fromRaw_le_length (l : List Int) : (fromRaw l).length ≤ l.length :=
+theorem length_fromRaw_le_lengthL (l : List Int) : (fromRaw l).length ≤ l.length :=
   length_fromRaw_le l l.length (fun j hj => getD_of_length_le l j hj)
 
 theorem divremLoop_quo (b : List Int) (invlc p : Int) (hp : 0 < p) (bdeg : Nat) :
@@ -70,7 +70,7 @@ theorem polyDivrem_red (p : ℕ) (hp : p.Prime) (a b : List Int) (hra : Reduced 
       have := divremLoop_quo b (modinv (lc b) p) p hp0 (b.length - 1) (a.length - b.length + 1) a []
         (by intro x hx; simp at hx)
       refine ⟨reduced_fromRaw _ _ (reduced_of_mem _ hp0 _ this.1), ?_⟩
-      have h4 := length_fromRaw_le_length
+      have h4 := length_fromRaw_le_lengthL
         (divremLoop b (modinv (lc b) p) p (b.length - 1) (a.length - b.length + 1) a []).1
       rw [this.2] at h4
       simp only [List.length_nil, add_zero] at h4
@@ -304,7 +304,7 @@ theorem divideByXA_red (p : ℕ) (hp : 0 < p) (poly : List Int) (a : Int) (q : L
         have : C (c0 : ZMod p) = - C (((divXALoop a p rest.reverse 0 []).1 : Int) : ZMod p) := by
           rw [← C_neg]; congr 1; linear_combination hc
         rw [this]; ring
-      · have := length_fromRaw_le_length (divXALoop a p rest.reverse 0 []).2
+      · have := length_fromRaw_le_lengthL (divXALoop a p rest.reverse 0 []).2
         rw [hmem.2] at this
         simp only [List.length_cons]; omega
 
